@@ -13,7 +13,7 @@ def gen_type(rng, depth, ctx):
     if ctx['tparams']: opts += ['tparam', 'tparam']
     if depth > 0:
         opts += ['option', 'vec', 'box', 'tuple2', 'tuple1', 'array', 'hashmap', 'btreemap', 'pathvec', 'pathopt', 'phantom', 'unit', 'tuple3']
-        if ctx['lt']: opts += ['optref', 'vecref', 'optreftuple']
+        if ctx['lt']: opts += ['optref', 'vecref', 'optreftuple', 'cow', 'cow']
         if ctx.get('lt2'): opts += ['optref2', 'optref2', 'optref2b']
         if ctx['constn']: opts += ['arrayn']
     k = rng.choice(opts)
@@ -34,6 +34,8 @@ def gen_type(rng, depth, ctx):
     if k == 'pathvec': return f"std::vec::Vec<{sub()}>"
     if k == 'pathopt': return f"core::option::Option<{sub()}>"
     if k == 'phantom': return f"std::marker::PhantomData<{sub()}>"
+    if k == 'cow':          # a lifetime used as a generic ARGUMENT
+        ctx['used'].add("'" + ctx['lt']); return rng.choice([f"std::borrow::Cow<'{ctx['lt']}, str>", f"Option<std::borrow::Cow<'{ctx['lt']}, str>>", f"Vec<std::borrow::Cow<'{ctx['lt']}, str>>"])
     if k == 'vecref':
         ctx['used'].add("'" + ctx['lt']); return f"Vec<&'{ctx['lt']} {rng.choice(BASE)}>"
     if k == 'optreftuple':
@@ -224,6 +226,7 @@ impl<T: Mk, const N: usize> Mk for [T; N] { fn mk(s: u64) -> Self { std::array::
 impl<K: Mk + std::hash::Hash + Eq, V: Mk> Mk for HashMap<K, V> { fn mk(s: u64) -> Self { (0..(s % 4)).map(|i| (K::mk(s + i), V::mk(s * 3 + i))).collect() } }
 impl<K: Mk + Ord, V: Mk> Mk for BTreeMap<K, V> { fn mk(s: u64) -> Self { (0..(s % 4)).map(|i| (K::mk(s + i), V::mk(s * 3 + i))).collect() } }
 impl<T> Mk for std::marker::PhantomData<T> { fn mk(_: u64) -> Self { std::marker::PhantomData } }
+impl<'x> Mk for std::borrow::Cow<'x, str> { fn mk(s: u64) -> Self { if s % 2 == 0 { std::borrow::Cow::Borrowed(["p", "q", "r"][(s % 3) as usize]) } else { std::borrow::Cow::Owned(format!("o{}", s % 4)) } } }
 impl<T: Mk + 'static> Mk for &'static T { fn mk(s: u64) -> Self { Box::leak(Box::new(T::mk(s))) } }
 pub fn sorted_dbg<I: IntoIterator>(c: I) -> Vec<String> where I::Item: std::fmt::Debug { let mut v: Vec<String> = c.into_iter().map(|x| format!("{:?}", x)).collect(); v.sort(); v }
 '''
